@@ -362,3 +362,42 @@ def track_skips_blank(k, line, rest, in_multi):
     import state."""
     reveal(track, [(k, line)] + rest, in_multi)
     return implies(len(norm(line)) == 0, track([(k, line)] + rest, in_multi) == track(rest, in_multi))
+
+
+# ================================================================== comments are not code: clone-abuse "used afterwards" (C13 view)
+# Inserting a directive-free comment is a meaning-preserving edit. The one place where a rule looks at what FOLLOWS a
+# statement is clone-abuse's unnecessary-clone test (`let x = y.clone();` with y never used afterwards): a use is an
+# `identifier` NODE with that name -- the text of a comment (or of a string literal) that merely mentions the name is not.
+from contracts import c17_clone  # noqa: E402,F401
+from contracts.c17_clone import contains_ident, used_after  # noqa: E402
+
+CLONE = "src/linters/clone_abuse/rust_analyzer.py::"
+COMMENT_TYPES = ("line_comment", "block_comment")
+
+
+def is_comment_leaf(n):
+    """A comment token of the tree-sitter Rust grammar (a leaf: it has no identifier descendants)."""
+    return n is not None and n.type in COMMENT_TYPES and len(n.children) == 0
+
+
+@contract(CLONE + "_node_contains_identifier~layout", props=["C13"], types=dict(node=TSNode, identifier=Str), returns=Bool)
+class NodeContainsIdentifierLayout:
+    def requires(node, identifier):
+        return node is not None
+
+    def ensures_only_identifier_nodes_are_uses(node, identifier, result):
+        return result == contains_ident(node, identifier)
+
+    def ensures_a_comment_is_never_a_use(node, identifier, result):
+        # whatever the comment's text says
+        return implies(is_comment_leaf(node), not result)
+
+
+@lemma(props=["C13"], types=dict(c=TSNode, rest=SeqOf(TSNode), identifier=Str, let_id=Int, found=Bool),
+       name="a-comment-among-the-following-statements-does-not-change-used-afterwards")
+def comment_is_transparent_for_used_after(c, rest, identifier, let_id, found):
+    """Spec `used_after` of c17_clone.py (proved equal to _identifier_used_after there): a comment node in front of the
+    remaining statements of the block changes nothing, in either scanner state."""
+    if not is_comment_leaf(c) or c.id == let_id:
+        return True
+    return used_after([c] + rest, identifier, let_id, found) == used_after(rest, identifier, let_id, found)
